@@ -67,10 +67,6 @@ theorem frag_chain1Rule (f : Font) (hf : FontOk f) (fuel : Nat) (res : List (Nat
     List.reverse_reverse]
   exact frag_weaken (frag_pure _ _) (fun _ h => h) (fun _ _ => trivial)
 
-theorem notKw_chain (typ : Nat) (val : List RB) (h : NotKwTok typ val) (line : Nat) :
-    NoChainKw { typ := typ, val := val, line := line } :=
-  ⟨h.2 _ (Or.inr (Or.inl rfl)) line, h.2 _ (Or.inr (Or.inr (Or.inl rfl))) line, h.2 _ (Or.inr (Or.inr (Or.inr rfl))) line⟩
-
 theorem peekTypeOf_head (X : List Tok) (t : Tok) (h : X.head? = some t) (hb : (t.typ == tBar) = false) :
     peekTypeOf X = some t.typ := by
   cases X with
@@ -92,46 +88,48 @@ theorem peekTypeOf_two (X : List Tok) (t1 t2 : Tok) (h1 : X.head? = some t1) (h2
     | cons b X2 => simp at h2; subst h2; simp [peekTypeOf, hb]
 
 /-- head facts of the text of a chained format 1 rule -/
-theorem ch1Pc_head (f : Font) (hf : FontOk f) (hk : NoKwNames f) (i : Nat × ChRule) (hg : i.1 < f.numGlyphs)
-    (hr : ChRuleOk f i.2) (X : List Piece) :
-    ∃ ty, (ty = tIdentifier ∨ ty = tInteger ∨ ty = tString) ∧ ∀ line,
-      (∃ t, (mkToks line (ch1Pc f i ++ X)).head? = some t ∧ NoChainKw t ∧ [tEOL].contains t.typ = false ∧
+theorem ch1Pc_head (f : Font) (i : Nat × ChRule) (X : List Piece) :
+    ∃ ty, GlyphTyp ty ∧ ∀ line,
+      (∃ t, (mkToks line (ch1Pc f i ++ X)).head? = some t ∧ [tEOL].contains t.typ = false ∧
         [tHyphen].contains t.typ = false) ∧
+      KwFree (mkToks line (ch1Pc f i ++ X)) ∧
       peekTypeOf (mkToks line (ch1Pc f i ++ X)) = some ty := by
-  obtain ⟨ty2, v2, ps2, hw2, hn2⟩ := writeGlyphList_head_notKw f hf hk (i.1 :: i.2.input) (by simp) (by
-    intro g hg'; simp only [List.mem_cons] at hg'
-    rcases hg' with rfl | hg'
-    · exact hg
-    · exact hr.input g hg')
+  obtain ⟨ty2, v2, ps2, hw2, hn2⟩ := writeGlyphList_head (newExplainer f) (i.1 :: i.2.input) (by simp)
   cases hb : i.2.back.reverse with
   | nil =>
-    refine ⟨ty2, hn2.1, fun line => ?_⟩
+    refine ⟨ty2, hn2, fun line => ?_⟩
     have e0 : (newExplainer f).writeGlyphList [] = [] := rfl
     have hh1 : (mkToks line (ch1Pc f i ++ X)).head? = some { typ := tBar, val := ascii [124], line := line } := by
       simp [ch1Pc, hb, e0, barP, sp, tk, mkToks]
     have hh2 : (mkToks line (ch1Pc f i ++ X)).tail.head? = some { typ := ty2, val := v2, line := line } := by
       simp [ch1Pc, hb, e0, hw2, barP, sp, tk, mkToks, nextLine, tBar, tEOL]
-    refine ⟨⟨_, hh1, ⟨by simp [isIdent, tBar, tIdentifier], by simp [isIdent, tBar, tIdentifier],
-      by simp [isIdent, tBar, tIdentifier]⟩, by simp [tBar, tEOL], by simp [tBar, tHyphen]⟩, ?_⟩
-    exact peekTypeOf_two _ _ _ hh1 hh2 (by simp)
+    exact ⟨⟨_, hh1, by simp [tBar, tEOL], by simp [tBar, tHyphen]⟩, kwFree_head _ _ hh1 (by simp [tBar, tIdentifier]),
+      peekTypeOf_two _ _ _ hh1 hh2 (by simp)⟩
   | cons b0 bs =>
-    obtain ⟨ty1, v1, ps1, hw1, hn1⟩ := writeGlyphList_head_notKw f hf hk (b0 :: bs) (by simp) (by
-      intro g hg'; rw [← hb] at hg'; exact hr.back g (by simpa using hg'))
-    refine ⟨ty1, hn1.1, fun line => ?_⟩
-    obtain ⟨_, _, e3, e4⟩ := typ_glyph_cases ty1 hn1.1
+    obtain ⟨ty1, v1, ps1, hw1, hn1⟩ := writeGlyphList_head (newExplainer f) (b0 :: bs) (by simp)
+    refine ⟨ty1, hn1, fun line => ?_⟩
+    obtain ⟨_, _, e3, e4⟩ := typ_glyph_cases ty1 hn1
     have hh : (mkToks line (ch1Pc f i ++ X)).head? = some { typ := ty1, val := v1, line := line } := by
       simp [ch1Pc, hb, hw1, mkToks]
-    have e5 : ty1 ≠ tHyphen := by rcases hn1.1 with h | h | h <;> subst h <;> decide
-    exact ⟨⟨_, hh, notKw_chain ty1 v1 hn1 line, by simpa using e4, by simpa using e5⟩, peekTypeOf_head _ _ hh e3⟩
+    have e5 : ty1 ≠ tHyphen := by rcases hn1 with h | h | h <;> subst h <;> decide
+    have hfree : ∀ kw, kwNoOf kw (mkToks line (ch1Pc f i ++ X)) := by
+      intro kw
+      have := kwNoOf_glyphs kw (newExplainer f) (b0 :: bs) (by simp)
+        ((barP ++ ((newExplainer f).writeGlyphList (i.1 :: i.2.input) ++ (barP ++ ((newExplainer f).writeGlyphList i.2.look ++
+          (arrow ++ (nestedP i.2.actions ++ [])))))) ++ X) line
+        (fun line' => ⟨{ typ := tBar, val := ascii [124], line := line' }, by simp [mkToks, barP, sp, tk],
+          by simp [tBar, tColon]⟩)
+      simpa [ch1Pc, hb, List.append_assoc] using this
+    exact ⟨⟨_, hh, by simpa using e4, by simpa using e5⟩, ⟨hfree _, hfree _, hfree _⟩, peekTypeOf_head _ _ hh e3⟩
 
 structure Chain1Facts (f : Font) (fuel : Nat) (st : ChSt) (ps : List Piece) (sub : Subtable) : Prop where
-  head : ∀ line, ∃ t, (mkToks line ps).head? = some t ∧ NoChainKw t ∧ [tEOL].contains t.typ = false ∧
-    [tHyphen].contains t.typ = false
+  head : ∀ line, (∃ t, (mkToks line ps).head? = some t ∧ [tEOL].contains t.typ = false ∧
+    [tHyphen].contains t.typ = false) ∧ KwFree (mkToks line ps)
   ty : ∃ ty, (∀ line, peekTypeOf (mkToks line ps) = some ty) ∧
     Frag (chainBranch f fuel st ty) ps (sub, st) SubStop Safe
   ws : ∃ rest, ps = .ws [a1 32] :: rest
 
-theorem chain1_branch (f : Font) (hf : FontOk f) (hk : NoKwNames f) (fuel : Nat) (st : ChSt)
+theorem chain1_branch (f : Font) (hf : FontOk f) (fuel : Nat) (st : ChSt)
     (rules : List (Nat × List ChRule)) (h : Chain1Ok f rules)
     (hfuel : tokCount (subP f (.chain1 rules)) + 2 < fuel) :
     Chain1Facts f fuel st (subP f (.chain1 rules)) (.chain1 rules) := by
@@ -182,11 +180,10 @@ theorem chain1_branch (f : Font) (hf : FontOk f) (hk : NoKwNames f) (fuel : Nat)
         intro x _; simp [tokCount_append, commaP, tk, tokCount])
       rw [tokCount_append] at hfuel'
       omega
-    obtain ⟨ty, hty, hfacts⟩ := ch1Pc_head f hf hk m0 (hflatOk m0 (by simp)).1 (hflatOk m0 (by simp)).2
-      (rest.flatMap (fun y => [commaP, sp] ++ ch1Pc f y))
-    refine ⟨fun line => ?_, ⟨ty, fun line => by simpa [mkToks] using (hfacts line).2, ?_⟩, ⟨_, rfl⟩⟩
-    · obtain ⟨t, h1, h2, h3, h4⟩ := (hfacts line).1
-      exact ⟨t, by simpa [mkToks] using h1, h2, h3, h4⟩
+    obtain ⟨ty, hty, hfacts⟩ := ch1Pc_head f m0 (rest.flatMap (fun y => [commaP, sp] ++ ch1Pc f y))
+    refine ⟨fun line => ?_, ⟨ty, fun line => by simpa [mkToks] using (hfacts line).2.2, ?_⟩, ⟨_, rfl⟩⟩
+    · obtain ⟨⟨t, h1, h3, h4⟩, hfree, _⟩ := hfacts line
+      exact ⟨⟨t, by simpa [mkToks] using h1, h3, h4⟩, by simpa [mkToks] using hfree⟩
     obtain ⟨e1, e2, _, _⟩ := typ_glyph_cases ty hty
     apply frag_ws [a1 32] ws_sp
     unfold chainBranch
@@ -204,9 +201,8 @@ theorem chain1_branch (f : Font) (hf : FontOk f) (hk : NoKwNames f) (fuel : Nat)
       (fun t ht => by simp [isInt, ht, tComma, tInteger]) safe_notDigit (fun r hr => by cases hr; decide)
       rest [] m0 fuel hlenr (fun i hi line => ?_) ?_) ?_ (fun nx h => by simpa [nextRune, render] using h)
         (fun line t ht => by simpa [mkToks] using ht)
-    · obtain ⟨hi1, hi2⟩ := hflatOk i (by simp [hi])
-      obtain ⟨ty', _, hf'⟩ := ch1Pc_head f hf hk i hi1 hi2 []
-      obtain ⟨t, h1, _, h3, _⟩ := (hf' line).1
+    · obtain ⟨ty', _, hf'⟩ := ch1Pc_head f i []
+      obtain ⟨t, h1, h3, _⟩ := (hf' line).1
       exact ⟨t, by simpa using h1, h3⟩
     · intro pre i post e
       have hi : i ∈ m0 :: rest := by rw [e]; simp
@@ -453,7 +449,7 @@ theorem chain2_subP (f : Font) (cov : List Nat) (b i l : List (Nat × Nat)) (rul
   rw [hfun]
   simp [sp]
 
-theorem chain_sub_step (f : Font) (hf : FontOk f) (hk : NoKwNames f) (fuel : Nat) (st0 : Subtable) (hsub : ChainSub f st0)
+theorem chain_sub_step (f : Font) (hf : FontOk f) (fuel : Nat) (st0 : Subtable) (hsub : ChainSub f st0)
     (hfu : tokCount (subP f st0) + 2 < fuel) (n : Nat) (acc : List Subtable) (TAIL : List Piece) (y : List Subtable)
     (P : Tok → Prop) (N : Option Nat → Prop)
     (hcont : Frag (chainCont f fuel n acc (st0, ChSt.empty)) TAIL y P N)
@@ -461,9 +457,8 @@ theorem chain_sub_step (f : Font) (hf : FontOk f) (hk : NoKwNames f) (fuel : Nat
     (hP : ∀ line t, P t → SubStop ((mkToks line TAIL).head?.getD t)) :
     Frag (chainLoop f fuel (n + chainSize [st0]) ChSt.empty acc) (subP f st0 ++ TAIL) y P N := by
   rcases hsub with ⟨rules, rfl, hok⟩ | ⟨cov, b, i, l, rules, rfl, hok⟩ | ⟨back, input, look, acts, rfl, hok⟩
-  · obtain ⟨hhead, ⟨ty, hty, hbr⟩, _⟩ := chain1_branch f hf hk fuel ChSt.empty rules hok hfu
-    exact chain_unit f fuel n ChSt.empty acc _ TAIL ty _ y P N
-      (fun line => by obtain ⟨t, h1, h2, _⟩ := hhead line; exact ⟨t, h1, h2⟩) hty hbr hcont hN hP
+  · obtain ⟨hhead, ⟨ty, hty, hbr⟩, _⟩ := chain1_branch f hf fuel ChSt.empty rules hok hfu
+    exact chain_unit f fuel n ChSt.empty acc _ TAIL ty _ y P N (fun line => (hhead line).2) hty hbr hcont hN hP
   · rw [chain2_subP] at hfu ⊢
     simp only [tokCount, tokCount_append] at hfu
     simp only [List.cons_append, List.append_assoc]
@@ -511,14 +506,14 @@ theorem chain_sub_step (f : Font) (hf : FontOk f) (hk : NoKwNames f) (fuel : Nat
     have hhd : ∀ line, (mkToks line (chain2Tail f cov rules)).head? = some { typ := tSlash, val := ascii [47], line := line } := by
       intro line; simp [chain2Tail, mkToks, tk]
     exact chain_unit f fuel n (chSt b i l) acc _ TAIL tSlash _ y P N
-      (fun line => ⟨_, hhd line, by simp [NoChainKw, isIdent, tSlash, tIdentifier]⟩)
+      (fun line => kwFree_head _ _ (hhd line) (by simp [tSlash, tIdentifier]))
       (fun line => peekTypeOf_head _ _ (hhd line) (by simp [tSlash, tBar])) hbr hcont hN hP
   · rw [chain3P_eq] at hfu ⊢
     have hbr := chain3_branch f hf fuel ChSt.empty back input look acts hok (by omega)
     cases input with
     | nil => exact absurd rfl hok.ne
     | cons s0 rest =>
-      have hfacts : ∀ line, (∃ t, (mkToks line (chain3P f back (s0 :: rest) look acts)).head? = some t ∧ NoChainKw t) ∧
+      have hfacts : ∀ line, KwFree (mkToks line (chain3P f back (s0 :: rest) look acts)) ∧
           peekTypeOf (mkToks line (chain3P f back (s0 :: rest) look acts)) = some tSquareBracketOpen := by
         intro line
         cases hb : back.reverse with
@@ -529,12 +524,12 @@ theorem chain_sub_step (f : Font) (hf : FontOk f) (hk : NoKwNames f) (fuel : Nat
           have hh2 : (mkToks line (chain3P f back (s0 :: rest) look acts)).tail.head? =
               some { typ := tSquareBracketOpen, val := ascii [91], line := line } := by
             simp [chain3P, hb, spaceJoin, sp, mkToks, Explainer.writeGlyphSet, tk, nextLine, tBar, tEOL]
-          exact ⟨⟨_, hh1, by simp [NoChainKw, isIdent, tBar, tIdentifier]⟩, peekTypeOf_two _ _ _ hh1 hh2 (by simp)⟩
+          exact ⟨kwFree_head _ _ hh1 (by simp [tBar, tIdentifier]), peekTypeOf_two _ _ _ hh1 hh2 (by simp)⟩
         | cons b0 bs =>
           have hh1 : (mkToks line (chain3P f back (s0 :: rest) look acts)).head? =
               some { typ := tSquareBracketOpen, val := ascii [91], line := line } := by
             simp [chain3P, hb, spaceJoin, mkToks, Explainer.writeGlyphSet, tk]
-          exact ⟨⟨_, hh1, by simp [NoChainKw, isIdent, tSquareBracketOpen, tIdentifier]⟩,
+          exact ⟨kwFree_head _ _ hh1 (by simp [tSquareBracketOpen, tIdentifier]),
             peekTypeOf_head _ _ hh1 (by simp [tSquareBracketOpen, tBar])⟩
       exact chain_unit f fuel n ChSt.empty acc _ TAIL tSquareBracketOpen _ y P N
         (fun line => (hfacts line).1) (fun line => (hfacts line).2) hbr hcont hN hP
@@ -547,7 +542,7 @@ theorem chain_tail_facts (f : Font) (more : List Subtable) :
     (∀ line t, LookStop t → SubStop ((mkToks line (more.flatMap fun st => orSep ++ subP f st)).head?.getD t)) :=
   ctx_tail_facts f more
 
-theorem frag_chainLoop (f : Font) (hf : FontOk f) (hk : NoKwNames f) (fuel : Nat) :
+theorem frag_chainLoop (f : Font) (hf : FontOk f) (fuel : Nat) :
     ∀ (more : List Subtable) (st0 : Subtable) (j : Nat) (acc : List Subtable),
       (∀ st ∈ st0 :: more, ChainSub f st ∧ tokCount (subP f st) + 2 < fuel) →
       Frag (chainLoop f fuel (chainSize (st0 :: more) + j) ChSt.empty acc)
@@ -561,7 +556,7 @@ theorem frag_chainLoop (f : Font) (hf : FontOk f) (hk : NoKwNames f) (fuel : Nat
     have hcont : Frag (chainCont f fuel j acc (st0, ChSt.empty)) [] (acc ++ [st0]) LookStop Safe :=
       frag_weaken (chain_cont_end f fuel j acc (st0, ChSt.empty))
         (fun t ht => by rcases ht with h | h <;> simp [h, tOr, tEOL, tEOF]) (fun _ _ => trivial)
-    have := chain_sub_step f hf hk fuel st0 hsub hfu j acc [] _ LookStop Safe hcont hN hP
+    have := chain_sub_step f hf fuel st0 hsub hfu j acc [] _ LookStop Safe hcont hN hP
     rw [Nat.add_comm] at this
     simpa using this
   | cons s1 ms ih =>
@@ -573,7 +568,7 @@ theorem frag_chainLoop (f : Font) (hf : FontOk f) (hk : NoKwNames f) (fuel : Nat
         ((s1 :: ms).flatMap fun st => orSep ++ subP f st) (acc ++ st0 :: s1 :: ms) LookStop Safe := by
       have := chain_cont_more f fuel (chainSize (s1 :: ms) + j) acc (st0, ChSt.empty) _ _ LookStop Safe hih
       simpa [List.append_assoc] using this
-    have := chain_sub_step f hf hk fuel st0 hsub hfu (chainSize (s1 :: ms) + j) acc _ _ LookStop Safe hcont hN hP
+    have := chain_sub_step f hf fuel st0 hsub hfu (chainSize (s1 :: ms) + j) acc _ _ LookStop Safe hcont hN hP
     have hsz : chainSize (st0 :: s1 :: ms) + j = chainSize (s1 :: ms) + j + chainSize [st0] := by
       rw [chainSize_cons st0]; omega
     rw [hsz]
